@@ -24,7 +24,7 @@ func TestMain(m *testing.M) {
 		Property: "C14", Level: "exploration",
 		Rule: "(a) rapid-generated multi-version histories on memory, layered and persistent stores (with SaveChanges into a persistent store); every (key,node) a store yields through NodeDB.Iterate, and every raw record of the persistent default column family, must satisfy key = node hash = reference hash of the reference-parsed encoding, CreateNode(Encode(n)) must reproduce encoding/hash/type/origin/version, Clone and CloneNode must preserve hash and encoding, and a walk of the raw bytes from the saved root must reproduce the content. " +
 			"(b) directly generated nodes of every kind (leaf incl. empty path, branch with every child-subset size with/without value, extension, value node) at origins {0,1,small,2^31,2^62} with separator/zero bytes in values. " +
-			"Non-trivial = branch with value, or value containing ':' or 0x00, or origin >= 2^31, or extension whose child key contains ':'; distinct = distinct node encoding.",
+			"A save may cover several versions; a large case saves 260..520 keys in one SaveChanges; every generated node is also decoded through readers that deliver one byte at a time, the type byte separately, and half reads. Non-trivial = branch with value, or value containing ':' or 0x00, or origin >= 2^31, or extension whose child key contains ':'; distinct = distinct node encoding.",
 		Assumptions: []string{"persistent stores run on the in-memory grocksdb stand-in", "internal/refmpt parser/hasher is the reference for the byte format"},
 	})
 	ev.Main(m)
